@@ -18,7 +18,7 @@ EXPLANATION = (
     "concat semantics."
 )
 # obligations added during the build phase (seeding rounds, twins, mutation analysis)
-ADDED_IN_BUILD = " Also: the segments are the groups of ChangeDetector.sparse_to_dense's labels, whose C05.e DENSE-FILL obligations are re-run here (a dropped last changepoint merges two segments)."
+ADDED_IN_BUILD = " Also: the segments are the groups of ChangeDetector.sparse_to_dense's labels, whose C05.e DENSE-FILL obligations are re-run here (a dropped last changepoint merges two segments). every-segment-judged: no returning path of _predict skips the loop over the segments. The reported interval has the exact form (first position, last position + 1) - a min / max / clip on a bound is a violation. Vectorised spellings are UNDECIDED except for two decided defects: intervals listed selection by selection (position-order) and statistics stored in an array of the data's dtype (statistic-dtype)."
 EXPLANATION = EXPLANATION + ADDED_IN_BUILD
 
 ASSUMPTIONS = [
@@ -183,6 +183,14 @@ def check_all(ctx, cls):
                 if any(w in k_ for w in ("concat", "hstack", "append(")) and "sort" not in k_ and "unique" not in k_:
                     ctx.violation("C17.c ONE-INTERVAL-PER-SEGMENT", "position-order", e.loc(), "the flagged segments are listed selection by selection (one group of indices after the other), not in the order of their positions: a segment above the upper bound that precedes one below the lower bound comes out after it", found=k_[:160], expected="one pass over the segments in position order (or a sort of the selected indices)")
                     return
+        # ... and another: statistics collected in an array whose dtype is the DATA's (np.empty(k, dtype=values.dtype)) are
+        # truncated for integer-typed data before they are compared with the bounds
+        for q_ in good:
+            for e in pred_events(q_, "alloc"):
+                a_ = e.data["arr"]
+                if a_.dtype != "float" and a_.stores and any("stat" in valkey(sv.data["value"]) or "mean(" in valkey(sv.data["value"]) for sv in a_.stores):
+                    ctx.violation(rule_b, "statistic-dtype", e.loc(), "the per-segment statistics are stored in an array that is not float by construction (its dtype is taken from the data): for integer-typed data a mean of 3.6 is truncated to 3 before it is compared with the bounds", found=f"dtype {a_.dtype or 'taken from an argument'}: {norm_src(a_.node)[:80]}", expected="a float array (np.empty(k) / dtype=float)")
+                    return
         if len(good) == 1 and not pred_events(good[0], "list_append"):
             ctx.undecided(rule_b, "branches", predm.loc(), "the flagging decision is not a branch per segment (a vectorised selection): not decided in this spelling")
             return
@@ -240,7 +248,26 @@ def check_all(ctx, cls):
         okt = ".index[" in k0 and "[0]/[1]" in k0 and ".index[" in k1 and "[-1]/[1]" in k1 and "Add" in k1 and "Add" not in k0
         # the exclusive end is the last position plus exactly one
         okt = okt and k1.count("Add(") == 1 and (",[1]/[1])" in k1 or "([1]/[1]," in k1)
-    ctx.check(okt, rule_c, "interval", app_e.loc(), "a flagged group is reported as (its first position, its last position + 1)", found=repr(tv)[:200], expected="(int(segment.index[0]), int(segment.index[-1] + 1))")
+    exact = False
+    clamped = None
+    if okt:
+        # exact form: the end is the group's last position plus one, the start its first position, and nothing else is
+        # applied to either (a min / max / clip on the end cuts the last sample off a flagged final segment)
+        s0, s1 = k0.replace("opq:", ""), k1.replace("opq:", "")
+        core0 = s0[len("int("):-1] if s0.startswith("int(") and s0.endswith(")") else s0
+        if core0.endswith(".index[[0]/[1]]"):
+            b_ = core0[: -len(".index[[0]/[1]]")] + ".index[[-1]/[1]]"
+            one = "[1]/[1]"
+            forms = {f"Add({b_},{one})", f"Add({one},{b_})", f"Add(int({b_}),{one})", f"Add({one},int({b_}))"}
+            forms |= {f"int({x})" for x in list(forms)}
+            exact = s1 in forms
+        clamped = next((w for w in ("min(", "max(", "clip(", "minimum(", "maximum(", "where(") if w in s1 or w in s0), None)
+    if okt and not exact and clamped is not None:
+        ctx.violation(rule_c, "interval", app_e.loc(), f"the reported interval is not (first position, last position + 1) of the flagged group: a bound goes through {clamped}...) - a flagged segment that ends at the last row loses its last sample (or becomes empty)", found=repr(tv)[:300], expected="(int(segment.index[0]), int(segment.index[-1] + 1))")
+    elif okt and not exact:
+        ctx.undecided(rule_c, "interval", app_e.loc(), "the reported interval mentions the group's first and last position and a + 1, but not in the recognised form: not decided", found=repr(tv)[:300])
+    else:
+        ctx.check(okt, rule_c, "interval", app_e.loc(), "a flagged group is reported as (its first position, its last position + 1)", found=repr(tv)[:200], expected="(int(segment.index[0]), int(segment.index[-1] + 1))")
     ctx.check(bool(app_e.loops), rule_c, "per-group", app_e.loc(), "one interval per group of the grouping (inside the group loop)", found=f"{len(app_e.loops)} enclosing loops")
     # the grouped frame: built by the library from the data column and the clone's labels
     ctor = pred_events(q, "pandas_ctor")
